@@ -546,7 +546,11 @@ def w_overwrite(ctx, rng, i):
                 # (also an empty file - a placeholder, a lock, the leftover of an interrupted run - is an existing file)
                 Path(ab).write_bytes(b"SENTINEL not a real file" if rng.random() < 0.6 else b"")
                 existed = True
-            watched_export(ctx, exporter, mk(), arg, ab, ow, (ext, sp))
+            xkw = {}
+            if which in (0, 1, 4) and rng.random() < 0.3:
+                # the documented extension keyword given together with a path (with or without the dot, any case)
+                xkw = {"extension": [ext, ext.lstrip("."), ext.upper()][rng.integers(0, 3)]}
+            watched_export(ctx, exporter, mk(), arg, ab, ow, (ext, sp), **xkw)
             shape_of_history.append("%s:%s:%s" % (sp, ow, "exists" if existed else "new"))
             if rng.random() < 0.2 and os.path.exists(ab):
                 os.remove(ab)
